@@ -10,9 +10,10 @@ TAppend == IsEv("Append") /\ ev.err = "" /\ AppendOps(ev.ops, ev.eid)
 TCommit == IsEv("Commit") /\ ev.err = "" /\ Commit(ev.ops, ev.stored, ev.packs, ev.eid, ev.times)
 TRead == IsEv("Read") /\ ev.err = "" /\ Read(ev.eid, ev.ops, ev.valid, ev.times, ev.files)
 TReadMerged == IsEv("ReadMerged") /\ ev.err = "" /\ ReadMerged(ev.eid, ev.ops, ev.reads, ev.valid, ev.files)
-TNext == Reset \/ TAppend \/ TCommit \/ TRead \/ TReadMerged
+TCommitInvalid == IsEv("CommitInvalid") /\ ev.refused /\ ~ev.moved /\ CommitRefused
+TNext == Reset \/ TAppend \/ TCommit \/ TRead \/ TReadMerged \/ TCommitInvalid
 TSpec == TInit /\ [][TNext]_<<vars, l>>
 TraceAccepted == TLCGet("stats").diameter - 1 = Len(Trace)
 (* an operation, once appended, is never altered or reordered *)
-Stable == [][(ev.ev \in {"Reset", "ReadMerged"}) \/ (\A i \in DOMAIN ops : ops'[i] = ops[i])]_<<vars, l>>
+Stable == [][(ev.ev \in {"Reset", "ReadMerged", "CommitInvalid"}) \/ (\A i \in DOMAIN ops : ops'[i] = ops[i])]_<<vars, l>>
 =============================================================================
